@@ -23,7 +23,7 @@ var evC18 = ev.New("C18", "valid UTF-8 cells (0-40 bytes) over ASCII letters in 
 
 var likeAlphabet = []string{"a", "b", "c", "A", "B", "C", "x", "Z", "0", "1", " ", "ä", "Ä", "é", "ß", "ñ", "Ω", "ω", "ж", "Ж",
 	"ı", "ſ", "ɐ", "ɑ", "ⱥ", "Ⱥ", "µ", "K", "k", "K", "ǅ", "ǆ", "Ǆ", "\u0080", "\u0085", "\u009f", " ", "😀", "日", "ǰ", "ŉ", "İ", "i", "I", "_", "-",
-	"$", ".", "*", "(", "^", "+", "\\", "[", "$", "\n", "\n", "\t", "\r", ".", ".*"}
+	"$", ".", "*", "(", "^", "+", "\\", "[", "$", "\n", "\n", "\t", "\r", ".", ".*", "~", "{", "|", "}", "\x7f", "`", "@", "\x00"}
 var likeMeta = []string{".", "*", "+", "?", "(", ")", "[", "]", "{", "}", "^", "$", "\\", ".*", "[a-c]", "(a|b)", "\\d", "a+",
 	"\\$", "\\^", "\\.", "\\(", "\\\\", "\\w+", "\\x{e9}", "(?s).", "\\pL", "$", "^", "[^-~]+", "[:-_]+", "\\141", "\\x61", "[\\x41-\\x5a]", "\\x{e9}+"}
 
